@@ -92,3 +92,81 @@ Definition path_request (req clone : Z) (tmps : list Z) : list lc :=
   concat (map (fun t => [Rel t; Rec t]) tmps) ++ [Rel clone; Rec clone; AppRel req; Rel req; Rec req].
 (* a recycled object handed out again continues as a fresh one *)
 Definition path_reuse (o : Z) (p : list lc) : list lc := Reacq o true :: p.
+
+(* ---- further paths (net/blockwise, net/observation, net/client, AsyncPing, response writer) ---- *)
+
+(* the library releases o and the pool takes it back *)
+Definition rel (o : Z) : list lc := [Rel o; Rec o].
+Definition rel_all (os : list Z) : list lc := concat (map rel os).
+(* o is handed to the application (response of a call), which inspects it and releases it itself *)
+Definition app_use (o : Z) : list lc := [Hold o; Unhold o true; AppRel o; Rel o; Rec o].
+(* o is lent to the application for the duration of a handler / callback *)
+Definition handler_use (o : Z) : list lc := [Hold o; Unhold o true].
+Definition opt_path {A} (f : A -> list lc) (x : option A) : list lc := match x with Some a => f a | None => [] end.
+
+(* net/client Client.Get/Post/Put/Delete: the library acquires the request and releases it itself
+   (`defer c.cc.ReleaseMessage(req)`), so it is gone before the caller sees the response; clone = the pending
+   entry's private copy, tmps = the copies made for retransmissions; resp = None when the call fails *)
+Definition path_client_call (req clone : Z) (tmps : list Z) (resp : option Z) : list lc :=
+  rel_all tmps ++ rel clone ++ rel req ++ opt_path app_use resp.
+
+(* ResponseWriter.SetMessage(new) inside the library (blockwise continueSendingMessage / processReceivedMessage /
+   sendEntityIncomplete): the replaced writer message w is released at once, the installed message s is released by
+   the receive path after the write, then the received message m *)
+Definition path_bw_block (b : Z * Z * Z) : list lc :=
+  let '(w, s, m) := b in rel w ++ rel s ++ rel m.
+
+(* blockwise Do of a request whose body exceeds a block (Client.Post/Put): the first-block request is a temporary
+   (cloneMessage; `defer ReleaseMessage`), every 2.31 Continue is answered through SetMessage, the final
+   response is handed to the caller *)
+Definition path_bw_upload (req tmp : Z) (blocks : list (Z * Z * Z)) (resp : option Z) : list lc :=
+  concat (map path_bw_block blocks) ++ rel tmp ++ rel req ++ opt_path app_use resp.
+
+(* a block of a block-wise response: sr = the copy of the sent request (getSentRequest; released when
+   processReceivedMessage returns), w = replaced writer message, s = the request for the next block *)
+Definition path_bw_fetch_block (b : Z * Z * Z * Z) : list lc :=
+  let '(w, sr, s, m) := b in rel w ++ rel sr ++ rel s ++ rel m.
+
+(* block-wise download through Client.Get: `cached` is acquired at the first block, lives in
+   receivingMessagesCache while the blocks arrive, and is what the caller finally receives and releases;
+   (sr, w, m) = the copy of the sent request, the untouched writer message and the received last block *)
+Definition path_bw_download (req : Z) (blocks : list (Z * Z * Z * Z)) (last : Z * Z * Z) (cached : Z) : list lc :=
+  let '(sr, w, m) := last in
+  concat (map path_bw_fetch_block blocks) ++ rel sr ++ rel w ++ rel m ++ rel req ++ app_use cached.
+
+(* the serving side of a block-wise upload: every block but the last is answered 2.31 through SetMessage; the
+   reassembled request `cached` is lent to the handler and never released afterwards (left to the GC) *)
+Definition path_bw_serve_upload (blocks : list (Z * Z * Z)) (last : Z * Z) (cached : Z) : list lc :=
+  let '(w, m) := last in
+  concat (map path_bw_block blocks) ++ handler_use cached ++ rel w ++ rel m.
+
+(* the serving side of a block-wise response (startSendingMessage): the handler's complete response `orig` is
+   Swap-ped for its first block s WITHOUT a release: orig stays in sendingMessagesCache (left to the GC when the
+   entry goes), except for an observe notification, where it is released at once; later blocks go through
+   SetMessage (path_bw_block) *)
+Definition path_bw_serve_first (m orig s : Z) (observe : bool) : list lc :=
+  handler_use m ++ (if observe then rel orig else []) ++ rel s ++ rel m.
+
+(* net/observation: a notification is lent to the application's callback on the receive path, which then
+   releases the writer message and the notification *)
+Definition path_notification (n w : Z) : list lc := handler_use n ++ rel w ++ rel n.
+
+(* udp AsyncPing: the request IS the pending entry's message (no clone); each retransmission works on a temporary
+   copy; the entry's message is released exactly once when the entry is consumed (pong, cancel, expiry);
+   w = writer message used while the pong is dispatched to the entry's handler *)
+Definition path_async_ping (req : Z) (tmps : list Z) (w : option Z) : list lc :=
+  rel_all tmps ++ rel req ++ opt_path rel w.
+
+(* an application handler that replaces the response: with SetMessage the library releases the old writer
+   message (inside the handler) and later the new one; with Swap nothing is released, the old message is the
+   application's, which releases it itself *)
+Definition path_handler_setmessage (m w new : Z) : list lc :=
+  [Hold m; Rel w; Rec w; Unhold m true] ++ rel new ++ rel m.
+Definition path_handler_swap (m w new : Z) : list lc :=
+  [Hold m; Unhold m true] ++ rel new ++ rel m ++ [AppRel w; Rel w; Rec w].
+
+(* the objects a trace mentions *)
+Definition objs (t : list lc) : list Z := map obj t.
+Definition objs3 (l : list (Z * Z * Z)) : list Z := concat (map (fun b => let '(a, b, c) := b in [a; b; c]) l).
+Definition objs4 (l : list (Z * Z * Z * Z)) : list Z := concat (map (fun b => let '(a, b, c, d) := b in [a; b; c; d]) l).
+Definition olist (x : option Z) : list Z := match x with Some a => [a] | None => [] end.
